@@ -15,7 +15,54 @@ import (
 	"go/ast"
 	"go/token"
 	"go/types"
+	"regexp"
+	"sort"
 )
+
+var parallelSym = regexp.MustCompile(`\bp[12]\b`)
+
+// coneFollowsParallels evaluates the constructor on a reference parsed from symbolic parameters
+// (standard parallels p1, p2) and reads the captured variable out of the inverse closure's
+// environment: does its term mention a standard parallel?  known is false when the model cannot
+// tell (the caller then keeps the constructor in the family).
+func coneFollowsParallels(c *Ctx, reg *projReg, ctor *types.Func, coneN types.Object) (dep, known bool) {
+	var names []string
+	for n, f := range reg.names {
+		if f == ctor {
+			names = append(names, n)
+		}
+	}
+	if len(names) == 0 {
+		return false, false
+	}
+	sort.Strings(names)
+	m, parse := newC20m(c)
+	if m == nil {
+		return false, false
+	}
+	sr, why := m.run(parse, "+proj="+names[0]+" +lat_1=P1 +lat_2=P2 +lat_0=P3 +lon_0=P4 +x_0=P5 +y_0=P6 +k_0=P13 +a=P7 +rf=P8 +no_defs")
+	if why != "" {
+		return false, false
+	}
+	c.Evals(1)
+	res, why := m.it.Call(ctor, nil, []oval{oPtr{sr}}, 0)
+	if why != "" || len(res) < 2 {
+		return false, false
+	}
+	fn, ok := res[1].(oFunc)
+	if !ok || fn.env == nil {
+		return false, false
+	}
+	cell := fn.env.lookup(coneN)
+	if cell == nil {
+		return false, false
+	}
+	p, ok := symOf(*cell)
+	if !ok {
+		return false, false
+	}
+	return parallelSym.MatchString(p.canon()), true
+}
 
 func c08conic(c *Ctx) {
 	p := c.P.Pkg("proj")
@@ -77,6 +124,12 @@ func c08conic(c *Ctx) {
 				return true
 			})
 			if coneN == nil {
+				continue
+			}
+			// the divisor is a cone constant only if it follows the standard parallels: its term,
+			// when the constructor is evaluated on symbolic parameters, mentions them (a captured
+			// numeric constant — Krovak's fixed cone — never changes sign)
+			if dep, known := coneFollowsParallels(c, reg, ctor, coneN); known && !dep {
 				continue
 			}
 			members++
